@@ -385,6 +385,15 @@ Section Shape.
     lia.
   Qed.
 
+  Lemma depth_info_full (s : nst) q : num_children s = W + 4 * q -> 0 <= q ->
+    depth_info w s = (q + 1, 0).
+  Proof.
+    intros Hn Hq. unfold depth_info. change (Z.of_nat depth_repeat) with 4.
+    replace (num_children s <? W) with false by lia.
+    replace (num_children s - W) with (q * 4) by lia.
+    rewrite Z_div_mult by lia. rewrite Z_mod_mult. reflexivity.
+  Qed.
+
   (** state of a node opened from a tree that verifies at depth L *)
   Lemma open_kids_ok L (t : tree D) (s : nst) : L <> 0 ->
     open dlen t = Some s -> tok t L = true -> kids_ok L (st_kids s).
@@ -460,11 +469,14 @@ Section Shape.
     Lemma fill_last_kids M (s : nst) d rep p cs s' r :
       fill_last dlen dnil w k rec s p rep cs = Some (s', r) ->
       depth_info w s = (d, rep) -> 1 <= d -> p <= d ->
-      kids_ok M (st_kids s) -> kids_ok M (st_kids s') /\ num_children s <= num_children s'.
+      kids_ok M (st_kids s) ->
+      kids_ok M (st_kids s') /\ num_children s <= num_children s' /\
+      (r <> [] -> snd (depth_info w s') = 0).
     Proof.
       intros H Hinfo Hd Hp Hk. unfold fill_last in H.
-      destruct (num_children s <=? W) eqn:En; [inversion H; subst; split; [exact Hk | lia]|].
-      destruct (depth_info_spec _ _ _ Hinfo) as [(Hlt & _) | (Hge & Hn & Hj & _)]; [lia|].
+      destruct (depth_info_spec _ _ _ Hinfo) as [(Hlt & Hd0 & _) | (Hge & Hn & Hj & _)]; [lia|].
+      destruct (num_children s <=? W) eqn:En.
+      { inversion H; subst. split; [exact Hk | split; [lia|]]. intros _. rewrite Hinfo. cbn [snd]. lia. }
       destruct (open dlen (last (st_kids s) (Leaf KRaw 0 dnil))) as [ls|] eqn:Eo; [|discriminate].
       destruct (rec ls (p - 1) cs) as [[ls' cs1]|] eqn:Er; [|discriminate].
       destruct s as [[rs bs] ks]. unfold num_children, st_kids in *. cbn [snd] in *.
@@ -501,19 +513,28 @@ Section Shape.
                     = pre ++ [commit dnil ls']) by reflexivity.
       destruct (rep =? 0) eqn:Erep.
       { injection H as <- <-. split; [exact Hs1|].
-        change (Z.of_nat (length ks) <= Z.of_nat (length (pre ++ [commit dnil ls']))).
-        rewrite app_length. unfold zlen in Hlen. cbn [length]. lia. }
+        assert (Hcnt : num_children (add_child (remove_last (rs, bs, ks)) (commit dnil ls') (st_size ls'))
+                       = Z.of_nat (length ks)).
+        { unfold num_children. rewrite Hk1, app_length. unfold zlen in Hlen. cbn [length]. lia. }
+        split. { unfold num_children, st_kids, zlen, pre in *. cbn [snd] in *. rewrite app_length. cbn [length]. lia. } intros _.
+        rewrite (depth_info_full _ (d - 1)); [reflexivity | etransitivity; [exact Hcnt | lia] | lia]. }
       destruct (fill_slots (tri_sub_z dlen w k p) (Z.to_nat (Z.of_nat depth_repeat - rep)) cs1) as [new cs2] eqn:E.
       injection H as <- <-.
       destruct (fill_slots_spec dlen _ _ _ (tri_sub_z_spec dlen w Hw1 raw p) _ _ _ _ E)
-        as (_ & _ & Ip & Ilen & _).
-      change (Z.of_nat depth_repeat) with 4 in Ilen.
+        as (_ & _ & Ip & Ilen & Iq & _).
+      change (Z.of_nat depth_repeat) with 4 in Ilen, Iq.
       set (s1 := add_child (remove_last (rs, bs, ks)) (commit dnil ls') (st_size ls')) in *.
       assert (Hk2 : st_kids (add_kids s1 new) = (pre ++ [commit dnil ls']) ++ new)
         by (rewrite add_kids_kids, Hk1; reflexivity).
+      assert (Hcnt : num_children (add_kids s1 new) = Z.of_nat (length ks) + Z.of_nat (length new)).
+      { unfold num_children. rewrite Hk2, !app_length. unfold zlen in Hlen. cbn [length]. lia. }
       change (kids_ok M (st_kids (add_kids s1 new)) /\
-              Z.of_nat (length ks) <= Z.of_nat (length (st_kids (add_kids s1 new)))).
-      rewrite Hk2. split; [|rewrite !app_length; unfold zlen in Hlen; cbn [length]; lia].
+              Z.of_nat (length ks) <= num_children (add_kids s1 new) /\
+              (cs2 <> [] -> snd (depth_info w (add_kids s1 new)) = 0)).
+      split; [|split; [lia|]].
+      2: { intros Hr. destruct (Iq Hr) as [Hl4 _].
+           rewrite (depth_info_full _ d); [reflexivity | etransitivity; [exact Hcnt | lia] | lia]. }
+      rewrite Hk2.
       unfold kids_ok. rewrite tri_go_app by exact Hw1. rewrite Hs1. cbn [andb]. rewrite Z.add_0_l.
       apply (tri_go_layer dlen w Hw1 raw M d).
       - rewrite forallb_forall in Ip |- *. intros c Hc. apply (tri_p_tok p d); [lia | lia | apply Ip, Hc].
@@ -538,24 +559,26 @@ Section Shape.
       destruct (1 =? m); [inversion H; subst; exact Hk1|].
       unfold fill_last in H. replace (num_children s1 <=? W) with true in H by lia.
       unfold resume in H. cbn [f_depth_incr aflags_off] in H.
-      destruct (depth_info w s1) as [d' j0] eqn:E1.
+      destruct (depth_info w s1) as [d' j0] eqn:E1. cbn [fst] in H.
       match type of H with Some ?X = _ => assert (Hs' : s' = fst X) by (injection H as H0; rewrite H0; reflexivity) end.
       rewrite Hs'. apply layers_loop_kids; [exact Hk1 | | right; exact Hm].
       destruct cs1 as [|c1 cs1]; [left; reflexivity|]. right.
       destruct (depth_info_spec _ _ _ E1) as [(Hlt1 & _) | (_ & Hn1' & Hj1 & Hd1)].
       + specialize (Hfull ltac:(discriminate)). lia.
-      + auto.
+      + specialize (Hfull ltac:(discriminate)). repeat split; lia.
     - replace (d0 =? 0) with false in H by lia.
       destruct (d0 =? m); [inversion H; subst; exact Hk|].
       destruct (fill_last dlen dnil w k (append_rec dlen dnil w k aflags_off fuel) s d0 rep cs) as [[s2 cs2]|] eqn:El;
         [|discriminate].
-      destruct (fill_last_kids _ IH L _ _ _ _ _ _ _ El Einfo Hd1 ltac:(lia) Hk) as [Hk2 Hn2].
+      destruct (fill_last_kids _ IH L _ _ _ _ _ _ _ El Einfo Hd1 ltac:(lia) Hk) as (Hk2 & Hn2 & Hz2).
       unfold resume in H. cbn [f_depth_incr aflags_off] in H.
-      destruct (depth_info w s2) as [d' j0] eqn:E2.
+      destruct (depth_info w s2) as [d' j0] eqn:E2. cbn [fst snd] in H, Hz2.
       match type of H with Some ?X = _ => assert (Hs' : s' = fst X) by (injection H as H0; rewrite H0; reflexivity) end.
       rewrite Hs'. apply layers_loop_kids; [exact Hk2 | | right; exact Hm].
+      destruct cs2 as [|c2 cs2]; [left; reflexivity|]. right.
+      specialize (Hz2 ltac:(discriminate)).
       destruct (depth_info_spec _ _ _ E2) as [(Hlt2 & _) | (_ & Hn2' & Hj2 & Hd2)]; [lia|].
-      right. auto.
+      repeat split; lia.
   Qed.
 
   (** Append with the corrected continuation keeps the trickle shape *)
@@ -576,24 +599,26 @@ Section Shape.
       { injection H as <-. apply commit_tok; [lia | exact Hk1]. }
       unfold fill_last in H. replace (num_children s1 <=? W) with true in H by lia.
       unfold resume in H. cbn [f_depth_incr aflags_off] in H.
-      destruct (depth_info w s1) as [d' j0] eqn:E1.
+      destruct (depth_info w s1) as [d' j0] eqn:E1. cbn [fst] in H.
       injection H as <-. apply commit_tok; [lia|].
       apply layers_loop_kids; [exact Hk1 | | lia].
       destruct cs1 as [|c1 cs1]; [left; reflexivity|]. right.
       destruct (depth_info_spec _ _ _ E1) as [(Hlt1 & _) | (_ & Hn1' & Hj1 & Hd1)].
       + specialize (Hfull ltac:(discriminate)). lia.
-      + auto.
+      + specialize (Hfull ltac:(discriminate)). repeat split; lia.
     - replace (d0 =? 0) with false in H by lia. cbn [andb] in H.
       destruct (fill_last dlen dnil w k (append_rec dlen dnil w k aflags_off (height t)) s (d0 - 1) rep cs)
         as [[s2 cs2]|] eqn:El; [|discriminate].
       destruct (fill_last_kids _ (append_rec_kids (height t)) (-1) _ _ _ _ _ _ _ El Einfo Hd1 ltac:(lia) Hk)
-        as [Hk2 Hn2].
+        as (Hk2 & Hn2 & Hz2).
       unfold resume in H. cbn [f_depth_incr aflags_off] in H.
-      destruct (depth_info w s2) as [d' j0] eqn:E2.
+      destruct (depth_info w s2) as [d' j0] eqn:E2. cbn [fst snd] in H, Hz2.
       injection H as <-. apply commit_tok; [lia|].
       apply layers_loop_kids; [exact Hk2 | | lia].
+      destruct cs2 as [|c2 cs2]; [left; reflexivity|]. right.
+      specialize (Hz2 ltac:(discriminate)).
       destruct (depth_info_spec _ _ _ E2) as [(Hlt2 & _) | (_ & Hn2' & Hj2 & Hd2)]; [lia|].
-      right. auto.
+      repeat split; lia.
   Qed.
 End Shape.
 
